@@ -163,6 +163,10 @@ class SwapMonitor:
         ids_touched = {old[fs(e)][1] for e in e0s + e1s} | {i for _, i in got.values()}
         before = {i: set(self.motif.get(i, ())) for i in ids_touched}
         touched = set()
+        unknown = [e for e in corner if e not in self.attr]
+        if unknown:
+            self.fail("swap-removes-an-edge-that-is-not-an-edge-of-the-given-network(as far as the swaps so far explain)",
+                      edge=[repr(v) for v in unknown[0]], u0=repr(u0), v0=repr(v0)); return
         for e in corner:
             t, i = self.attr.pop(e)
             self.motif[i].discard(e)
